@@ -888,7 +888,7 @@ theorem vSort_length (desc : Bool) (key : Option Fn) (xs : List Val) : (vSort de
 
 /-- operations whose result must not share any cell with an existing list -/
 def Op.freshResult : Op → Bool
-  | .lit .. | .butlast .. | .subseq .. | .copyList .. | .reverse .. | .mapcar .. | .mapcar2 .. | .concat .. => true
+  | .lit .. | .butlast .. | .subseq .. | .copyList .. | .reverse .. | .mapcar .. | .mapcar2 .. | .concat .. | .fresh1 .. | .fresh2 .. => true
   | _ => false
 
 /-- operations whose result is a tail of (or is) their list argument -/
